@@ -463,7 +463,13 @@ def run(ctx):
             names = [e[0] for e in eff]
             r = strip_sym(Sym(f).local(0))
             ok = names == ["arc-into-raw"] and is_param(arg_syms(eff[0][1])[0], 0) and r[0] == "agg" and sym_is_call(r[3][1], "Metadata::shared")
-            chk.ob("C14.b", f.path, ok, "Arc::into_raw(arc) + Metadata::shared(len)" if ok else f"shared_into_parts: effects {names}, returns {sym_str(r)}", f.loc())
+            if ok:
+                # ... the recorded length being the ELEMENT count of the shared value (`arc.len()`), for `str` and for `[T]`
+                # alike — a byte size (size_of_val) agrees with it only for one-byte elements
+                la = strip_sym(strip_sym(r[3][1])[2][0])
+                VIEWS_ = ("Deref::deref", "Arc<T>::deref", "Arc<T, A>::deref", "AsRef::as_ref", "Borrow::borrow", "str::as_bytes")
+                ok = sym_is_call(la, "len") and is_param(sym_through(strip_sym(la[2][0]), *VIEWS_), 0)
+            chk.ob("C14.b", f.path, ok, "Arc::into_raw(arc) + Metadata::shared(arc.len())" if ok else f"shared_into_parts: effects {names}, returns {sym_str(r)[:160]} — the length recorded for a shared value is not its element count", f.loc())
         f = fns.get("borrowed_into_parts")
         if f:
             eff = effects(list(f.body.calls()))
